@@ -60,6 +60,10 @@ func init() {
 		{Kind: "calls", File: ld, Func: "Loader.resolveSingle", Name: "singleSkeleton", Match: []string{"l.preparePhase", "l.loadPhase", "l.mergePhase", "l.responseCacheFlush"}},
 		{Kind: "calls", File: ld, Func: "Loader.preparePhase", Name: "prepareLock", Match: []string{"l.dataBuffer.Lock", "defer:l.dataBuffer.Unlock", "l.shouldSkipErroredDependencyLocked", "l.selectItemsForPath"}},
 		{Kind: "calls", File: ld, Func: "Loader.mergePhase", Name: "mergeLock", Match: []string{"l.dataBuffer.Lock", "defer:l.dataBuffer.Unlock", "l.mergeResult", "l.mergeMultiEntityResult", "l.callOnFinished"}},
+		{Kind: "calls", File: ld, Func: "Loader.loadPhase", Name: "loadRecordsFailure", Match: []string{"l.executeSourceLoad", "l.recordErroredFetchID", "l.recordErroredFetchIDLocked", "if"}},
+		{Kind: "calls", File: ld, Func: "Loader.recordErroredFetchID", Name: "recordLock", Match: []string{"l.dataBuffer.Lock", "defer:l.dataBuffer.Unlock", "l.recordErroredFetchIDLocked"}},
+		{Kind: "guards", File: ld, Func: "Loader.shouldSkipErroredDependencyLocked", Name: "skipGuards"},
+		{Kind: "guards", File: ld, Func: "Loader.recordErroredFetchIDLocked", Name: "recordGuards"},
 		{Kind: "conds", File: sf, Func: "validateSchedule", Name: "validateKinds"},
 		{Kind: "calls", File: sf, Func: "validateSchedule", Name: "validateConds", Match: []string{"if"}},
 	}
